@@ -198,13 +198,13 @@ Proof.
   - cbn in Hco. discriminate.
   - (* collections *)
     cbn [compile] in Hco. unfold wrap_coerce in Hco. rewrite strict in Hco.
-    destruct k; try (cbn in Hco; discriminate).
-    destruct (o_nocopy o && check_only (compile o None t))%bool eqn:E; [|cbn in Hco; discriminate].
-    apply andb_true_iff in E. destruct E as [_ E].
-    rewrite spec_TColl in Hs. destruct d; try discriminate.
-    destruct (all_ok _) as [[vs|]|] eqn:Ea; try discriminate. apply accept_ok in Hs. subst v. simpl.
-    f_equal. apply all_ok_some in Ea. eapply forall2_embed; [exact Ea|].
-    intros x v Hin Hx. eapply IHt; [eapply wf_data_list; eassumption|exact E|exact Hx].
+    destruct k; cbn [norm_kind] in Hco; try (cbn in Hco; discriminate).
+    all: destruct (o_nocopy o && check_only (compile o None t))%bool eqn:E; [|cbn in Hco; discriminate].
+    all: apply andb_true_iff in E; destruct E as [_ E].
+    all: rewrite spec_TColl in Hs; destruct d; try discriminate.
+    all: destruct (all_ok _) as [[vs|]|] eqn:Ea; try discriminate; apply accept_ok in Hs; subst v; unfold wrap_coll; cbn [norm_kind embed].
+    all: f_equal; apply all_ok_some in Ea; eapply forall2_embed; [exact Ea|].
+    all: intros x v Hin Hx; eapply IHt; [eapply wf_data_list; eassumption|exact E|exact Hx].
   - cbn [compile] in Hco. unfold wrap_coerce in Hco. rewrite strict in Hco. discriminate.
   - (* mappings *)
     cbn [compile] in Hco. unfold wrap_coerce in Hco. rewrite strict in Hco.
@@ -1065,7 +1065,7 @@ Proof.
         apply (array_result _ _ l (PList l) (ocons cons_list acc) VList).
         intros x Hx. apply Helt. eapply wf_data_list; eassumption. }
     cbn [compile]. unfold wrap_coerce. rewrite strict.
-    destruct k.
+    destruct k; cbn [norm_kind] in *.
     + exact ListAgree.
     + (* set *)
       rewrite exec_MSet, spec_TColl. destruct d; auto.
@@ -1094,6 +1094,33 @@ Proof.
       assert (exists vs, v = VList vs) as [vs ->].
       { rewrite spec_TColl in Hs. destruct (all_ok _) as [[vs|]|]; try discriminate. apply accept_ok in Hs. eauto. }
       reflexivity.
+    + (* Sequence / Collection: deserialized as a list *)
+      rewrite spec_coll_kind.
+      destruct (ex fuel _ d) eqn:G; destruct (sp fuel acc (TColl KList t) d) eqn:Hs; simpl in ListAgree; try contradiction; auto.
+      subst v0. destruct d; try (rewrite spec_TColl in Hs; discriminate).
+      assert (exists vs, v = VList vs) as [vs ->].
+      { rewrite spec_TColl in Hs. destruct (all_ok _) as [[vs|]|]; try discriminate. apply accept_ok in Hs. eauto. }
+      reflexivity.
+    + (* Sequence / Collection: deserialized as a list *)
+      rewrite spec_coll_kind.
+      destruct (ex fuel _ d) eqn:G; destruct (sp fuel acc (TColl KList t) d) eqn:Hs; simpl in ListAgree; try contradiction; auto.
+      subst v0. destruct d; try (rewrite spec_TColl in Hs; discriminate).
+      assert (exists vs, v = VList vs) as [vs ->].
+      { rewrite spec_TColl in Hs. destruct (all_ok _) as [[vs|]|]; try discriminate. apply accept_ok in Hs. eauto. }
+      reflexivity.
+    + (* AbstractSet: deserialized as a set *)
+      rewrite exec_MSet, spec_TColl. destruct d; auto.
+      assert (Ha : forall x, In x l -> agree (ex fuel (compile o None t) x) (sp fuel None t x))
+        by (intros x Hx; apply Helt; eapply wf_data_list; eassumption).
+      pose proof (elts_agree _ _ l Ha O) as E.
+      pose proof (elts_hashable _ _ l Ha (fun x v _ Hv => spec_hashable fuel t None x v Hhash Hv) O) as Eh.
+      destruct (elts_loop (ex fuel (compile o None t)) 0 l) as [vs ch [st|]].
+      * destruct E as [->|E]; auto. rewrite E. auto.
+      * destruct (Eh vs ch eq_refl) as [Eh'|Eh']; [rewrite Eh'; destruct (forallb hashable vs); auto; destruct (finish _ _ _ _); auto|].
+        rewrite Eh'. destruct (all_ok _) as [[vs'|]|] eqn:Ea; auto.
+        -- destruct E as [-> ->]. apply finish_nil.
+        -- destruct (finish_children (PList l) (ocons cons_list acc) ch (VSet (fold_left set_add vs [])) E) as [e He].
+           rewrite He. auto.
   - (* fixed tuples *)
     cbn [compile]. unfold wrap_coerce. rewrite strict, exec_MTuple, spec_TTuple. destruct d; auto. cbv zeta.
     rewrite map_length.
